@@ -82,6 +82,9 @@ fn classify_backtrace(bt: &str) -> (String, String) {
             _ => continue,
         };
         let sym = sym.trim_start_matches('<');
+        if sym.contains("install_panic_hook") {
+            continue;
+        }
         if sym.starts_with("trusttunnel::") {
             let s = sym.split("::h").next().unwrap_or(sym);
             let s = s.split(" as ").next().unwrap_or(s);
@@ -113,8 +116,18 @@ pub fn install_panic_hook() {
         if !QUIET_PANICS.load(Ordering::Relaxed) {
             eprintln!("panic at {}: {}", location, message);
         }
+        if std::env::var_os("VERIF_PANIC_SITES").is_some() {
+            // for the parent: survives an abort of this process
+            eprintln!("PANIC-SITE {}", location);
+        }
         let bt = std::backtrace::Backtrace::force_capture().to_string();
         let (owner, site) = classify_backtrace(&bt);
+        if !QUIET_PANICS.load(Ordering::Relaxed) {
+            eprintln!("  owner={} site={}", owner, site);
+            for l in bt.lines().filter(|l| l.contains("::")).take(40) {
+                eprintln!("  {}", l.trim());
+            }
+        }
         if let Ok(mut g) = PANICS.lock() {
             g.push(PanicRec {
                 location,
